@@ -69,7 +69,9 @@ def ptMul (a : Pt) (k : Nat) : R Pt :=
   | .w c p => match c.mul k p with
     | .inf => throw .value
     | r => pure (.w c r)
-  | .ed p => pure (.ed (edMul (k % 2 ^ 255) ⟨p.x % edP, p.y % edP⟩))
+  | .ed p => match edMulNoclamp k p with   -- libsodium refuses small-order / mixed-order operands and an identity result
+    | none => throw .value
+    | some r => pure (.ed r)
 
 def eccOps : List (String × Op) := [
   ("ptfrombytes", fun a => match a with
